@@ -105,6 +105,18 @@ def run(tier, rng, C):
         stats = st if stats is None else C.merge_stats(stats, st)
     from gen import srclit as SL
     lit_sizes = [k for k in SL.sizes(limit=2 * 1048576, lo=97)]
+    # a generated state of every size, the empty one of size 0 included, is what the authorization URL carries and what is returned
+    from gen import reqs as R
+    import base64 as _b64
+    au = []
+    for n in range(0, 97):
+        st = _b64.urlsafe_b64encode(bytes((n * 7 + j * 13) % 256 for j in range(n))).decode().rstrip("=")
+        l = R.authurl_line(R.AUTH_ENDPOINTS[n % 3], "aaa", None if n % 2 else "https://client/cb", st, [] if n % 3 else ["S:" + C.tb("read")])
+        if l:
+            au.append((l, "state-of-%d-bytes" % n))
+    vv, st_ = C.differential("C12", au, monitor=R.mon3, nontrivial=lambda l, o: True)
+    v += vv
+    stats = C.merge_stats(stats, st_)
     for k in [200, 1000, 256, 256 + 16, 65536 + 16] + lit_sizes:
         vv, st = C.differential("C12", [("CSRF %d" % k, "csrf-long")], monitor=lambda l, o: "CSRFM " + l[5:] + " | " + o,
                                 canon=lambda l, o: o.split(" ")[0], shrinkable=False)
@@ -157,6 +169,10 @@ def run(tier, rng, C):
             if nbytes >= 4 and int(ws[2]) != 3000:
                 fails.append("%s build: %s: only %s distinct values among 3000 draws" % (build, l, ws[2]))
     stats["per_position_value_coverage_draws"] = 3000 * len(pos_lines) * 2
+    # the generators in a process that cannot open another file (descriptor table full): fresh values or a loud refusal, never constants
+    for o in C.run_lines(C.IMPL_BIN[0], ["FDSTARVED"], shards=1):
+        if not o.startswith("ok"):
+            fails.append("no descriptor left: %s" % o[:200])
     # ONE thread, requested sizes and the two generators mixed in random order: every value still has
     # exactly its own length and shares nothing with its neighbours
     mixed = []
